@@ -5,7 +5,9 @@ Tie X-C17: the real PopenExecutor / PopenFuture / solve_low_level are driven thr
 schedules (label lists) -- every thread of the protocol is a real Python thread running the
 real code, parked at instrumented points (the shutdown Event, the Lock, the registry list,
 Thread.start, Popen, communicate, poll, set_result, result, the cancel thread pool) and
-released one label at a time; after every label the observable state (flag, lock owner,
+released one label at a time (the per-job spawn lock of PopenFuture is instrumented too: the worker's
+first acquisition is the label SpawnEnter, it keeps the lock across the `popen` gate, cancel tasks are
+only scheduled while it is free); after every label the observable state (flag, lock owner,
 registry, per job: thread positions, process, exception, stdout, number of set_result calls;
 per shutdown caller: position and pending cancels / joins) is compared with the extracted
 Coq model run on the same schedule.  Every thread (submitter, worker, shutdown caller, cancel
@@ -385,6 +387,21 @@ class FakePs:
         return self.p.state == "run"
 
 
+_ATTRS = {}
+
+
+def spawn_attrs():
+    """names of the spawn lock / cancel-request flag of PopenFuture, as T-cancel reads them from the source"""
+    if not _ATTRS:
+        _ATTRS.update(lock="_spawn_lock", flag="_cancel_requested")
+        with contextlib.suppress(Exception):
+            from translate import t_cancel
+
+            info = t_cancel.translate((common.SRC / t_cancel.SRC).read_text())[1]
+            _ATTRS.update(lock=info["spawn_lock"], flag=info["cancel_flag"])
+    return _ATTRS["lock"], _ATTRS["flag"]
+
+
 def install(ctl):
     """Patch halmos.processes / halmos.solve module globals for one forced run."""
     import psutil
@@ -606,8 +623,8 @@ def install(ctl):
         j = int(cmd[1])
         f._c17_j = j
         ctl.futs[j] = f
-        if hasattr(f, "_spawn_lock"):
-            f._spawn_lock = CtlSpawnLock(j)
+        if hasattr(f, spawn_attrs()[0]):
+            setattr(f, spawn_attrs()[0], CtlSpawnLock(j))
         orig_set, orig_result = f.set_result, f.result
 
         def set_result(res):
@@ -740,8 +757,8 @@ def impl_run(case):
                 f = ctl.futs[j]
                 jb = {"spc": spc, "wpc": wpc, "proc": 0, "exc": 0, "out": -1, "sets": ctl.sets[j], "creq": 0, "slock": 0}
                 if f is not None:
-                    jb["creq"] = int(bool(getattr(f, "_cancel_requested", False)))
-                    lk = getattr(f, "_spawn_lock", None)
+                    jb["creq"] = int(bool(getattr(f, spawn_attrs()[1], False)))
+                    lk = getattr(f, spawn_attrs()[0], None)
                     jb["slock"] = int(getattr(lk, "owner", None) is not None)
                     p = f.process
                     jb["proc"] = 0 if p is None else (1 if p.state == "run" else 2)
@@ -816,7 +833,7 @@ def impl_run(case):
 
         def spawn_lock_free(j):
             f = ctl.futs[j] if 0 <= j < n else None
-            lk = getattr(f, "_spawn_lock", None)
+            lk = getattr(f, spawn_attrs()[0], None)
             return getattr(lk, "owner", None) is None
 
         def apply(lab):
@@ -1437,8 +1454,8 @@ def families(tier):
     fam = []
     if tier == "quick":
         fam += [([0], [], 3, 15), ([1], [], 3, 15)]
-        fam += [([1], [0], 1, 4), ([0], [1], 1, 0), ([0], [0], 1, 15), ([1], [1], 1, 4), ([0], [0, 1], 0, 0), ([1], [0, 0], 0, 4)]
-        fam += [([0, 0], [], 0, 0), ([0, 1], [0], 0, 0), ([0, 0], [1], 0, 0)]
+        fam += [([1], [0], 1, 4), ([0], [1], 1, 0), ([0], [0], 1, 6), ([1], [1], 0, 4), ([0], [0, 1], 0, 0), ([1], [0, 0], 0, 4)]
+        fam += [([0, 0], [], 0, 0), ([0, 1], [0], 0, 0)]
         fam += [([3], [], 2, 6), ([3], [0], 1, 4), ([2], [1, 0], 0, 0)]          # processes that ignore SIGTERM
     else:
         fam += [([0], [], 4, 15), ([1], [], 4, 15)]
@@ -1535,10 +1552,10 @@ def run(rep, tier):
     cases = [dict(c, maximal=c.get("maximal", False), family="corpus") for c in CORPUS]
     exhaustive_note = []
     # schedules chosen by the implementation itself (no model needed): random completions from the initial state
-    free_cfg = [([0], [0], 30), ([1], [1], 30), ([0], [1, 0], 50), ([0, 1], [0], 50), ([1, 0], [1], 50), ([0, 0], [1, 0], 60), ([1, 0], [0, 0], 30),
-                ([3], [0], 30), ([2, 3], [0, 1], 40)]
+    free_cfg = [([0], [0], 20), ([1], [1], 20), ([0], [1, 0], 30), ([0, 1], [0], 30), ([1, 0], [1], 30), ([0, 0], [1, 0], 40), ([1, 0], [0, 0], 20),
+                ([3], [0], 20), ([2, 3], [0, 1], 30)]
     if tier != "quick":
-        free_cfg = [(tm, wa, c * 5) for tm, wa, c in free_cfg] + [([0, 1, 0], [1, 0], 300), ([0, 0, 1], [0], 200)]
+        free_cfg = [(tm, wa, c * 8) for tm, wa, c in free_cfg] + [([0, 1, 0], [1, 0], 300), ([0, 0, 1], [0], 200)]
     for tm, wa, cnt in free_cfg:
         for _ in range(cnt):
             cases.append({"tmos": tm, "waits": wa, "sched": [], "free": r.randrange(1 << 30), "maximal": False, "family": f"impl-driven:{len(tm)}j{len(wa)}s"})
@@ -1555,7 +1572,7 @@ def run(rep, tier):
             for s in ss:
                 cases.append({"tmos": tm, "waits": wa, "sched": s, "maximal": True, "family": f"exh:{len(tm)}j{len(wa)}s"})
         # random deeper schedules
-        rnd = [([0, 1], [0], 120, 3), ([0, 0], [1], 100, 3), ([1, 0], [0, 1], 80, 3), ([0], [1, 0], 50, 4), ([0, 1], [1, 0], 80, 3), ([3, 2], [0, 1], 60, 3)] if tier == "quick" else \
+        rnd = [([0, 1], [0], 80, 3), ([0, 0], [1], 70, 3), ([1, 0], [0, 1], 60, 3), ([0], [1, 0], 40, 4), ([0, 1], [1, 0], 60, 3), ([3, 2], [0, 1], 40, 3)] if tier == "quick" else \
               [([0, 1], [0], 700, 4), ([0, 0], [1], 500, 4), ([1, 0], [0, 1], 500, 4), ([0, 1], [1, 0], 500, 4), ([0, 1, 0], [0], 700, 3), ([0, 0, 1], [1], 500, 3), ([0, 1, 0], [0, 1], 500, 3)]
         for tm, wa, cnt, P_ in rnd:
             for s in random_schedules(exe, r, tm, wa, cnt, P_):
@@ -1570,10 +1587,10 @@ def run(rep, tier):
         rand_async = pool.map_async(real_random_run, [r.randrange(1 << 30) for _ in range(nreal)], chunksize=1) if nreal else None
         real = real_async.get(600)
         rand_real = rand_async.get(1500) if rand_async else []
-        ex_cfgs = [([0], [0], 2, 0), ([0], [1], 2, 0), ([1], [1], 1, 4), ([1], [0], 1, 6), ([0], [1, 0], 1, 0), ([0, 0], [0], 0, 0), ([0, 0], [1], 0, 0),
+        ex_cfgs = [([0], [0], 2, 0), ([0], [1], 1, 0), ([1], [1], 1, 4), ([1], [0], 1, 6), ([0], [1, 0], 1, 0), ([0, 0], [0], 0, 0),
                    ([3], [0], 1, 4), ([2], [0], 1, 0)] if tier == "quick" else \
                   [([0], [0], 2, 15), ([1], [1], 2, 4), ([0], [1, 0], 1, 0), ([1], [0, 0], 1, 4), ([0, 0], [0], 1, 0), ([0, 1], [1], 0, 4), ([3], [0], 2, 6), ([2, 3], [0], 0, 4)]
-        ex_cases, ex_res, ex_notes = explore_impl(pool, ex_cfgs, 600 if tier == "quick" else 1500)
+        ex_cases, ex_res, ex_notes = explore_impl(pool, ex_cfgs, 220 if tier == "quick" else 1500)
         exhaustive_note += ex_notes
         impl = []
         nerr = 0
